@@ -47,6 +47,27 @@ CLAIMS = {
         "Results of component checks (X.can_assign(other)) are assumed by structural induction; extension checks on "
         "AnnotatedValue and the TypeVar solver path are listed as not decided.",
     ),
+    "C05": (
+        "Decides the definite-argument slice and the error discipline: (R05.a) for POSITIONAL_ONLY / "
+        "POSITIONAL_OR_KEYWORD / KEYWORD_ONLY the guarded actions of bind_arguments, extracted by truth-table "
+        "evaluation over HAS_POSITIONAL/HAS_KEYWORD/HAS_DEFAULT with no star arguments, equal CPython's binding "
+        "order; *args/**kwargs absorb the rest; (R05.b) leftover positionals/keywords are errors; (R05.c) every "
+        "show_call_error in the binder is followed by return None; (R05.d) callers test the result for None; "
+        "(R05.e) ParameterKind arms exhaustive, values equal inspect._ParameterKind. The star-argument "
+        "(exists-expansion) clause and `incompatible_call iff TypeError` for every shape are not decided.",
+        "guarded-action extraction by finite truth-table evaluation against a reference table",
+        "Reference table encodes the language reference's binding rules; atoms are recognised syntactically by role.",
+    ),
+    "C20": (
+        "Decides: (R20.1) the three kind predicates evaluated over the six-element Position domain equal the "
+        "specification table; (R20.2) the marker stored by the binder for every combination of explicit / starred / "
+        "default sources follows docs/type_evaluation.md (POSITIONAL index, KEYWORD name, DEFAULT, ARGS/KWARGS, "
+        "UNKNOWN in exactly the four listed situations); (R20.3) _OP_TO_DATA negations/impls; (R20.4) evaluator "
+        "control (branches follow the varmaps, first definite return, show_error records active conditions, "
+        "exclude_any defaults). Agreement with a reference interpreter on every body is not decided.",
+        "finite-domain evaluation of the kind tables + truth-table extraction of binder markers",
+        "docs/type_evaluation.md is the oracle for the kind table.",
+    ),
     "C10": (
         "Decides: (R10.1) no set/frozenset-typed value (typed from literals, constructors, set algebra, annotations "
         "of fields/parameters/returns, one inter-procedural step) reaches an order-observable construct (ordered "
